@@ -21,17 +21,17 @@ def make_registry(fortran=False):
             ${result} = -2*${y} + ${t}
             """))
         freg = freg.register_codegen("<func>g", "fortran", f.CallCode("""
-            ${result} = ${x}*${x}/2
+            ${result} = ${x}*${x}/2d0
             """))
         freg = freg.register_codegen("<func>two", "fortran", f.CallCode("""
-            ${r1} = ${x} + 1
-            ${r2} = ${x}*2
+            ${r1} = ${x} + 1d0
+            ${r2} = ${x}*2d0
             """))
         freg = freg.register_codegen("<func>note", "fortran", f.CallCode("""
             continue
             """))
         freg = freg.register_codegen("<func>zero", "fortran", f.CallCode("""
-            ${result} = 3
+            ${result} = 3d0
             """))
     return freg
 
